@@ -13,6 +13,8 @@ QUICK = [
     ("gen-packdir", {"nfiles": 8, "ndirs": 3, "bs": 4096, "hardlinks": True, "xattrs": "safe"}, 30),
     ("gen-packdir", {"nfiles": 6, "ndirs": 4, "bs": 4096, "hardlinks": True, "nohl": True}, 10),
     ("gen-packdir", {"nfiles": 10, "ndirs": 2, "bs": 4096, "big": True}, 10),
+    ("gen-packdir", {"nfiles": 12, "ndirs": 2, "bs": 4096, "hostile": True, "nohl": True}, 14),
+    ("gen-glob", {"nfiles": 12, "ndirs": 2, "bs": 4096, "hostile": True, "nohl": True}, 6),
     ("gen-glob", {"nfiles": 8, "ndirs": 3, "bs": 4096, "hardlinks": True, "nohl": True}, 10),
     ("gen-glob", {"nfiles": 8, "ndirs": 3, "bs": 4096}, 10),
 ]
